@@ -557,7 +557,11 @@ def _chop(frame: Subframe, time: sc.Variable, close_to_open: bool) -> Subframe |
         if inside_i != inside_j:
             # Intersection
             t = (time - frame.time[i]) / (frame.time[j] - frame.time[i])
-            v = (1 - t) * frame.wavelength[i] + t * frame.wavelength[j]
+            wi, wj = frame.wavelength[i], frame.wavelength[j]
+            v = wi + t * (wj - wi)
+            # Stay on the edge despite rounding, otherwise the subframe's extreme
+            # wavelengths and times may end up at different vertices.
+            v = min(max(v, min(wi, wj)), max(wi, wj))
             output.append((time, v))
     if not output:
         return None
